@@ -46,8 +46,8 @@ impl BinaryOperators {
         operators.insert(Operator::Dual('<', '='), BinaryOperator::new(3));
         operators.insert(Operator::Single('>'), BinaryOperator::new(3));
         operators.insert(Operator::Dual('>', '='), BinaryOperator::new(3));
-        operators.insert(Operator::Single('='), BinaryOperator::new(2));
-        operators.insert(Operator::Dual('!', '='), BinaryOperator::new(2));
+        operators.insert(Operator::Single('='), BinaryOperator::new(3));
+        operators.insert(Operator::Dual('!', '='), BinaryOperator::new(3));
 
         BinaryOperators {
             operators
